@@ -375,7 +375,8 @@ def match_known(known, v):
     names equals the violation's attribute (a list in the signature = any of)."""
     for e in known:
         sig = e.get("signature", {})
-        if sig.get("kind") != v["kind"]:
+        k = sig.get("kind")
+        if (v["kind"] not in k) if isinstance(k, list) else (k != v["kind"]):
             continue
         ok = True
         for k, want in sig.items():
